@@ -103,13 +103,14 @@ def status_term(s):
     return {'done': 'SDone', 'ready': 'SReady', 'notified': 'SNotified'}.get(s, 'SReady')
 
 
-def case_term(fixed, atomic, P, C, r):
+def case_term(variant, atomic, P, C, r):
+    fixed, recheck = variant
     try:
         buf = clist([item_term(x) for x in r.buf])
     except TypeError:
         buf = '[PObj 0%N]'
-    return '(Case %s %s %s %s %s %s %s %s %s %s %s %s %s)' % (
-        cbool(fixed), cbool(atomic),
+    return '(Case %s %s %s %s %s %s %s %s %s %s %s %s %s %s)' % (
+        cbool(fixed), cbool(recheck), cbool(atomic),
         clist([clist([hop_term(o) for o in scr]) for scr in P]),
         clist([cop_term(o) for o in C]),
         clist([str(c) for c in r.schedule]),
@@ -177,9 +178,16 @@ WITNESSES = [
 
 
 def probe_variant(runner):
-    """Does the real __disconnect_final handler set input_event?  (selects the model variant)"""
+    """Which source text is running?  (selects the model variant)
+    final_wakes_input: the real __disconnect_final handler sets input_event;
+    recheck_before_raise: after a timeout of connected_event.wait() receive() looks at the
+    buffer again before raising."""
     r = runner([[F]], [], [2, 2, 2, 2])
-    return any(l == ('Set', 'IE') for step in r.trace for l in step)
+    fixed = any(l == ('Set', 'IE') for step in r.trace for l in step)
+    r = runner([LOSE], [R1], [2, 2, 0, 0, 1, 0])
+    flat = [l for step in r.trace for l in step]
+    recheck = any(a == ('Timeout', 'CE') and b[0] == 'BufTest' for a, b in zip(flat, flat[1:]))
+    return fixed, recheck
 
 
 def switches_in_window(r):
@@ -252,8 +260,8 @@ def collect(chk):
     for atomic, runner in ((False, S.run_threads), (True, S.run_async)):
         fixed[atomic] = probe_variant(runner)
     S.close_loop()
-    chk.extra['variant'] = {'SimpleClient.final_wakes_input': fixed[False],
-                            'AsyncSimpleClient.final_wakes_input': fixed[True]}
+    chk.extra['variant'] = {'SimpleClient (final_wakes_input, recheck_before_raise)': list(fixed[False]),
+                            'AsyncSimpleClient (final_wakes_input, recheck_before_raise)': list(fixed[True])}
     n_err = [0]
 
     def add(name, P, C, rec):
@@ -321,7 +329,7 @@ def run(chk):
         'the wrapped Client invokes the four handlers as client.py does (`lifecycle`) for the refutation '
         'witnesses; the positive theorems hold for arbitrary handler scripts on any number of producers',
         'SimpleClient.disconnect() by the application itself is not modelled (same thread as receive())']
-    chk.prove()
+    chk.prove(targets=['Check/C19Check.v'])
 
     cases, meta, fixed = collect(chk)
     codes, errors = coqio.eval_cases('c19', IMPORTS, DEFS, 'c19case', cases, 'c19_eval', shard=1500)
@@ -338,8 +346,6 @@ def run(chk):
         atomic = m['mode'] == 'asyncio'
         replayed[m['scenario']] = {'agrees_with_model': not (code & 1),
                                    'violates_on_real_class': bool(code & m['expect_bit'])}
-        if m['expect_bit'] == 128 and fixed[atomic]:
-            continue            # repaired tree: the hang witness must NOT reproduce (checked by bit 1)
     chk.extra['witness_replay'] = replayed
 
     best, seen = {}, {}
@@ -398,7 +404,7 @@ def replay(chk, data):
     fixed = probe_variant(runner)
     r = runner(P, C, rp['schedule'])
     S.close_loop()
-    print('mode=%s final_wakes_input=%s' % (rp['mode'], fixed))
+    print('mode=%s (final_wakes_input, recheck_before_raise)=%s' % (rp['mode'], fixed))
     for ch, labels in zip(r.schedule, r.trace):
         print('  choice %d: %s' % (ch, labels))
     print('  final: status=%s producers_done=%s buffer=%s flags(iev,cev,conn,nsup)=%s' % (
